@@ -624,6 +624,7 @@ impl<S: MSub> MSys<S> {
         let before = if inj.is_some() { Some(o.model.clone()) } else { None };
         let mut after_model = o.model.clone();
         let mut ncb = 0;
+        let _ = ncb;
         let res: Result<(), Caught> = match kind {
             K_INS => {
                 let mut held: Vec<(u8, u32, (Option<u8>, u32))> = vec![];
